@@ -27,6 +27,19 @@ IGNORED_CATCH = {"ValueError", "KeyError", "ImportError", "UnicodeDecodeError", 
                  "TypeError", "IndexError", "StopIteration", "struct.error", "packeting.PacketError"}
 
 
+# try statements that are NOT transport-level error classification and are left to another property.
+# Each entry: "Class.method" -> (source text the try body must contain, recorded reason).  A listed
+# method whose try body does not contain that text fails closed.
+SKIPPED = {
+    "ServerTls.serviceCxes": ("cx.serviceHandshake()",
+                              "server accept loop, not a transport site: it catches whatever IncomerTls.handshake "
+                              "re-raises (classified here as site IncomerTls.handshake#0: want -> quiet, else "
+                              "close + propagate), drops that pending connection and goes on; modelled and proved "
+                              "in C26 (flag extraction + pending_entries_are_live) and required by C32"),
+}
+skipped_log = []
+
+
 class TranslationError(Exception):
     pass
 
@@ -185,6 +198,13 @@ def sites_of(path, relname):
             for node in ast.walk(fn):
                 if not isinstance(node, ast.Try):
                     continue
+                qual = "%s.%s" % (cls.name, fn.name)
+                if qual in SKIPPED:
+                    must, why = SKIPPED[qual]
+                    if must not in "\n".join(src(b) for b in node.body):
+                        raise TranslationError("%s: try statement without %s in a method listed as skipped" % (qual, must))
+                    skipped_log.append((qual, relname, node.lineno, why))
+                    continue
                 clauses, relevant = [], False
                 for h in node.handlers:
                     tname = dotted(h.type) if h.type is not None else None
@@ -227,6 +247,7 @@ def ident(name):
 
 
 def generate(repo):
+    del skipped_log[:]
     sites = []
     for rel in FILES:
         sites += sites_of(os.path.join(repo, rel), rel)
@@ -253,6 +274,8 @@ def generate(repo):
         body = ";\n".join("   (%s,\n    %s)" % (c, r_decision(d)) for c, d in clauses)
         lines.append("Definition %s : trysite :=\n  [%s]." % (ident(name), body.lstrip()))
         lines.append("")
+    for qual, rel, lineno, why in skipped_log:
+        lines.append("(* SKIPPED %s (%s line %d): %s *)" % (qual, rel, lineno, why))
     lines.append("Definition sites : list (string * trysite) :=\n  [%s]." % ";\n   ".join(
         '("%s", %s)' % (name, ident(name)) for name, _, _, _ in sites))
     return "\n".join(lines) + "\n", sites
